@@ -338,8 +338,12 @@ def rule_g(prog, rep):
             problems.append('not stored into the node being merged')
     m = crate.fn(f'{STORE}::merge')
     mb = Bindings(crate, m)
-    asg = [nd for nd, a in crate.walk_fn(m) if nd.get('k') == 'assign' and nd['l'].get('k') == 'field' and nd['l']['name'] == 'len']
-    if len(asg) != 1 or not any('ncount_values' in x for x in mb.origins(asg[0]['r'])):
+    def _recounts(fn_, b_):
+        asg_ = [nd for nd, a in crate.walk_fn(fn_) if nd.get('k') == 'assign' and nd['l'].get('k') == 'field' and nd['l']['name'] == 'len']
+        return len(asg_) == 1 and any('ncount_values' in x for x in b_.origins(asg_[0]['r']))
+    ce = crate.fn(f'{STORE}::count_entries')
+    via_ce = bool(crate.calls(m, lambda c: c == f'{STORE}::count_entries')) and _recounts(ce, Bindings(crate, ce))
+    if not (_recounts(m, mb) or via_ce):
         problems.append('merge does not recount the entries')
     if problems:
         rep.violation('C01.g', 'Store::nmerge', f.loc, '; '.join(problems), key='C01.g/nmerge/' + '|'.join(p_.split(' (')[0] for p_ in problems))
